@@ -3,7 +3,7 @@
  * or fault injecting), link-time wrappers that record each endpoint's own view of the handshake
  * (records sent/received by the handshake drivers, ECDH result, TLCP pre-master secret).
  *
- * Link with: -Wl,--wrap=tls_record_send,--wrap=tls_record_recv,--wrap=sm2_do_ecdh,--wrap=tls_pre_master_secret_generate,--wrap=tls_record_set_handshake_certificate,--wrap=hkdf_expand
+ * Link with: -Wl,--wrap=tls_record_send,--wrap=tls_record_recv,--wrap=sm2_do_ecdh,--wrap=tls_pre_master_secret_generate,--wrap=tls_record_set_handshake_certificate,--wrap=hkdf_expand,--wrap=tls_uint24array_to_bytes
  * Include after common.h and entropy.h, in exactly one translation unit. */
 #ifndef VERIF_TLS_PEER_H
 #define VERIF_TLS_PEER_H
@@ -30,7 +30,7 @@ int tls13_record_encrypt(const BLOCK_CIPHER_KEY *key, const uint8_t iv[12],
 #define DAY 86400
 
 /* ------------------------------------------------------------------ credentials */
-typedef struct { uint8_t der[1024]; size_t len; SM2_KEY key; uint8_t name[256]; size_t namelen; } cred_t;
+typedef struct { uint8_t der[2048]; size_t len; SM2_KEY key; uint8_t name[640]; size_t namelen; } cred_t;
 
 static int mk_name(cred_t *c, const char *cn) {
 	c->namelen = 0;
@@ -100,6 +100,77 @@ static void chain_build(uint8_t **buf, size_t *len, const pki_t *k, const cred_t
 	for (i = k->depth - 1; i >= 0; i--) chain_add(buf, len, &k->ca[i]);
 }
 
+/* ---- trust-anchor bundles with several CA certificates ---- */
+#define MAXDECOY 8
+static cred_t decoy[MAXDECOY]; static int decoy_ready[MAXDECOY];
+static const cred_t *get_decoy(int i) {
+	if (!decoy_ready[i]) {
+		char cn[32]; snprintf(cn, sizeof cn, "Decoy CA %d", i);
+		if (sm2_key_generate(&decoy[i].key) != 1 || mk_name(&decoy[i], cn) != 1
+			|| mk_cert(&decoy[i], NULL, 1, -1, X509_KU_KEY_CERT_SIGN | X509_KU_CRL_SIGN, T0 - 2 * DAY, T0 + 3650 * DAY) != 1) return NULL;
+		decoy_ready[i] = 1;
+	}
+	return &decoy[i];
+}
+/* a self-signed CA certificate of exactly `target` DER bytes (name attributes as filler) */
+static int mk_decoy_sized(cred_t *c, size_t target) {
+	long fill = target > 420 ? (long)target - 420 : 0; int tries, pathlen = -1;
+	if (sm2_key_generate(&c->key) != 1) return -1;
+	for (tries = 0; tries < 80; tries++) {
+		char st[129], lo[129], org[65], ou[65]; size_t f = (size_t)(fill > 0 ? fill / 2 : 0), a, b, cc, d;   /* the name appears twice (issuer, subject) */
+		long diff;
+		a = f > 128 ? 128 : f; f -= a; b = f > 128 ? 128 : f; f -= b; cc = f > 64 ? 64 : f; f -= cc; d = f > 64 ? 64 : f;
+		memset(st, 'S', a); st[a] = 0; memset(lo, 'L', b); lo[b] = 0; memset(org, 'O', cc); org[cc] = 0; memset(ou, 'U', d); ou[d] = 0;
+		c->namelen = 0;
+		if (x509_name_set(c->name, &c->namelen, sizeof(c->name), "CN", a ? st : NULL, b ? lo : NULL, cc ? org : NULL, d ? ou : NULL, "Sized CA") != 1) return -1;
+		if (mk_cert(c, NULL, 1, pathlen, X509_KU_KEY_CERT_SIGN | X509_KU_CRL_SIGN, T0 - 2 * DAY, T0 + 3650 * DAY) != 1) return -1;
+		diff = (long)target - (long)c->len;
+		if (diff == 0) return 1;
+		if (diff & 1) { pathlen = pathlen < 0 ? 3 : -1; continue; }   /* the pathLenConstraint INTEGER changes the parity */
+		fill += diff;
+	}
+	return -1;
+}
+/* n certificates, the real root at position real_pos, decoys elsewhere; total = 0: natural size,
+ * otherwise the last decoy is sized so that the bundle has exactly `total` bytes */
+static int bundle_build(uint8_t **buf, size_t *len, const cred_t *root, int n, int real_pos, size_t total) {
+	int i, k = 0; static cred_t sized;
+	*buf = NULL; *len = 0;
+	for (i = 0; i < n; i++) {
+		if (i == real_pos) { chain_add(buf, len, root); continue; }
+		if (total && i == (real_pos == n - 1 ? n - 2 : n - 1)) continue;      /* placeholder for the sized one, appended below */
+		{ const cred_t *dc = get_decoy(k++); if (!dc) return -1; chain_add(buf, len, dc); }
+	}
+	if (total) {
+		if (*len + 300 > total || mk_decoy_sized(&sized, total - *len) != 1) return -1;
+		chain_add(buf, len, &sized);
+	}
+	return 1;
+}
+/* a certificate of exactly `target` bytes issued by `issuer`: subject key = a fresh key, padded with a
+ * large subjectAltName (one URI).  Well-formed DER; whether it would validate is irrelevant: it must be
+ * refused (or handled) before it can run over a fixed buffer */
+static uint8_t *mk_big_cert(const cred_t *issuer, size_t target, size_t *outlen) {
+	cred_t tmp; size_t uri = target > 500 ? target - 500 : 8; int tries;
+	uint8_t *exts = malloc(target + 600), *der = malloc(target + 1200), *gn = malloc(target + 600);
+	if (sm2_key_generate(&tmp.key) != 1 || mk_name(&tmp, "big") != 1) return NULL;
+	for (tries = 0; tries < 40; tries++) {
+		uint8_t serial[12], *p = der; size_t extslen = 0, gl = 0, dl = 0;
+		rand_bytes(serial, sizeof serial); serial[0] = (serial[0] & 0x7f) | 0x40;
+		gn[gl++] = 0x86; if (uri < 128) gn[gl++] = (uint8_t)uri; else if (uri < 256) { gn[gl++] = 0x81; gn[gl++] = (uint8_t)uri; } else { gn[gl++] = 0x82; gn[gl++] = (uint8_t)(uri >> 8); gn[gl++] = (uint8_t)uri; }
+		memset(gn + gl, 'u', uri); gl += uri;
+		if (x509_exts_add_key_usage(exts, &extslen, target + 600, X509_critical, X509_KU_KEY_CERT_SIGN) != 1
+			|| x509_exts_add_basic_constraints(exts, &extslen, target + 600, X509_critical, 1, 0) != 1
+			|| x509_exts_add_sequence(exts, &extslen, target + 600, OID_ce_subject_alt_name, 0, gn, gl) != 1) break;
+		if (x509_cert_sign_to_der(X509_version_v3, serial, sizeof serial, OID_sm2sign_with_sm3, issuer->name, issuer->namelen,
+			T0 - DAY, T0 + 300 * DAY, tmp.name, tmp.namelen, &tmp.key, NULL, 0, NULL, 0, exts, extslen,
+			&issuer->key, SM2_DEFAULT_ID, SM2_DEFAULT_ID_LENGTH, &p, &dl) != 1) break;
+		if (dl == target) { free(exts); free(gn); *outlen = dl; return der; }
+		if (dl < target) uri += target - dl; else uri -= dl - target;
+	}
+	free(exts); free(gn); free(der); return NULL;
+}
+
 /* ------------------------------------------------------------------ per-endpoint view (wrappers) */
 #define MAXREC 24
 typedef struct {
@@ -123,10 +194,25 @@ static void view_add(int dir, const uint8_t *rec, size_t len) {
  * (the client hashes what it sends, so the transcripts stay consistent and only the server's own
  * guards can stop the handshake).  Link with --wrap=tls_record_set_handshake_certificate. */
 static __thread int cur_empty_cert = 0;
+/* a forging peer: the Certificate message it sends carries this chain instead of its configured one
+ * (TLCP / TLS 1.2), resp. has the certificate at position forge13_pos swapped for forge13_cert (TLS 1.3,
+ * --wrap=tls_uint24array_to_bytes: tls13_certificate_list_to_bytes emits every certificate through it) */
+static __thread const uint8_t *forge_chain = NULL; static __thread size_t forge_chain_len = 0;
+static __thread const uint8_t *forge13_base = NULL, *forge13_cert = NULL; static __thread size_t forge13_len = 0; static __thread int forge13_pos = -1;
 int __real_tls_record_set_handshake_certificate(uint8_t *record, size_t *recordlen, const uint8_t *certs, size_t certslen);
 int __wrap_tls_record_set_handshake_certificate(uint8_t *record, size_t *recordlen, const uint8_t *certs, size_t certslen) {
-	if (cur_empty_cert) return __real_tls_record_set_handshake_certificate(record, recordlen, certs, 0);
+	if (cur_empty_cert) { static const uint8_t none[3] = { 0, 0, 0 }; return tls_record_set_handshake(record, recordlen, TLS_handshake_certificate, none, 3); }
+	if (forge_chain) return __real_tls_record_set_handshake_certificate(record, recordlen, forge_chain, forge_chain_len);
 	return __real_tls_record_set_handshake_certificate(record, recordlen, certs, certslen);
+}
+void __real_tls_uint24array_to_bytes(const uint8_t *data, size_t datalen, uint8_t **out, size_t *outlen);
+void __wrap_tls_uint24array_to_bytes(const uint8_t *data, size_t datalen, uint8_t **out, size_t *outlen) {
+	if (forge13_cert && data && forge13_base && data >= forge13_base && data < forge13_base + TLS_MAX_CERTIFICATES_SIZE) {
+		const uint8_t *p = forge13_base, *c; size_t left = (size_t)(data - forge13_base) + datalen, cl; int idx = 0;
+		while (left && p < data && x509_cert_from_der(&c, &cl, &p, &left) == 1) idx++;
+		if (idx == forge13_pos) { data = forge13_cert; datalen = forge13_len; }
+	}
+	__real_tls_uint24array_to_bytes(data, datalen, out, outlen);
 }
 /* TLS 1.3: HKDF-Expand-Label(.., "key" / "iv", ..) outputs, in the order the driver derives them
  * (server handshake, client handshake, server application, client application).  --wrap=hkdf_expand */
@@ -281,6 +367,8 @@ typedef struct {
 	int post_accepted;                       /* number of receive calls that returned 1 */
 	int post_deviates;                       /* some accepted payload is not the next message the peer sent */
 	int empty_cert;                          /* client only: send a Certificate message with an empty list (TLCP / TLS 1.2) */
+	int forge_pos; const uint8_t *forge_cert; size_t forge_cert_len;   /* forge_cert != NULL: the certificate at this position of the chain sent is replaced */
+	uint8_t *forged_chain; size_t forged_chain_len;
 	pthread_t th;
 } endpoint_t;
 
@@ -324,8 +412,22 @@ static void *endpoint_main(void *arg) {
 	endpoint_t *e = arg;
 	ent_seed(e->seed, -1); ent_clock(e->clock);
 	cur_view = &e->view; cur_empty_cert = e->empty_cert;
+	if (e->forge_cert) {
+		if (e->protocol == TLS_protocol_tls13) {
+			forge13_base = e->is_client ? e->conn->client_certs : e->conn->server_certs;
+			forge13_cert = e->forge_cert; forge13_len = e->forge_cert_len; forge13_pos = e->forge_pos;
+		} else {
+			const uint8_t *p = e->ctx.certs, *c; size_t left = e->ctx.certslen, cl; int idx = 0;
+			e->forged_chain = NULL; e->forged_chain_len = 0;
+			while (left && x509_cert_from_der(&c, &cl, &p, &left) == 1) {
+				const uint8_t *src = idx == e->forge_pos ? e->forge_cert : c; size_t sl = idx == e->forge_pos ? e->forge_cert_len : cl;
+				e->forged_chain = realloc(e->forged_chain, e->forged_chain_len + sl); memcpy(e->forged_chain + e->forged_chain_len, src, sl); e->forged_chain_len += sl; idx++;
+			}
+			forge_chain = e->forged_chain; forge_chain_len = e->forged_chain_len;
+		}
+	}
 	e->hs_ret = tls_do_handshake(e->conn);
-	cur_view = NULL; cur_empty_cert = 0;
+	cur_view = NULL; cur_empty_cert = 0; forge_chain = NULL; forge13_cert = NULL; forge13_base = NULL; forge13_pos = -1;
 	e->post_send_ret = e->post_recv_ret = -99;
 	if (e->hs_ret == 1 && e->post) {
 		static const pmsg_t dflt[2] = { { 16, 0 }, { 16, 0 } };
@@ -340,7 +442,12 @@ static void *endpoint_main(void *arg) {
 			if (r != 1) break;
 		}
 		for (i = 0; i < np + 2 && fails < 2; i++) {
-			size_t got = 0; int r = ep_recv(e, buf, 20000, &got);
+			size_t got = 0; int r;
+			if (e->post_accepted >= np) {         /* everything expected has arrived: one short look for anything further (a replayed copy) */
+				struct timeval tv = { 0, 250000 }; setsockopt(e->sock, SOL_SOCKET, SO_RCVTIMEO, &tv, sizeof tv);
+				fails = 1;
+			}
+			r = ep_recv(e, buf, 20000, &got);
 			e->post_rets[i] = r; e->post_lens[i] = r == 1 ? got : 0; e->post_ncalls = i + 1;
 			if (i == 0) { e->post_recv_ret = r; e->post_recv_len = r == 1 ? got : 0; }
 			if (r == 1) {
@@ -371,22 +478,33 @@ static void ep_plan(endpoint_t *e, const char *spec) {
 }
 
 /* configure an endpoint from explicit credential pieces (any may be absent) */
-static int ep_setup(endpoint_t *e, int protocol, int is_client,
+/* conn: NULL = a fresh, exactly sized heap object; otherwise an object used before (tls_init is called
+ * on it again, as an accept loop would) */
+static int ep_setup_on(endpoint_t *e, TLS_CONNECT *conn, int protocol, int is_client,
 	const uint8_t *chain, size_t chainlen, const SM2_KEY *signkey, const SM2_KEY *enckey,
 	const uint8_t *anchors, size_t anchorslen) {
 	int suite = protocol == TLS_protocol_tlcp ? TLS_cipher_ecc_sm4_cbc_sm3 : protocol == TLS_protocol_tls12 ? TLS_cipher_ecdhe_sm4_cbc_sm3 : TLS_cipher_sm4_gcm_sm3;
-	memset(e, 0, sizeof(*e)); e->protocol = protocol; e->is_client = is_client; e->clock = T0;
+	memset(e, 0, sizeof(*e)); e->protocol = protocol; e->is_client = is_client; e->clock = T0; e->forge_pos = -1;
+	e->conn = conn ? conn : malloc(sizeof(TLS_CONNECT));
 	if (tls_ctx_init(&e->ctx, protocol, is_client) != 1 || tls_ctx_set_cipher_suites(&e->ctx, &suite, 1) != 1) return -1;
 	e->ctx.quiet = 1;
 	if (chainlen) { e->ctx.certs = malloc(chainlen); memcpy(e->ctx.certs, chain, chainlen); e->ctx.certslen = chainlen; }
 	if (signkey) e->ctx.signkey = *signkey;
 	if (enckey) e->ctx.kenckey = *enckey;
 	if (anchorslen) { e->ctx.cacerts = malloc(anchorslen); memcpy(e->ctx.cacerts, anchors, anchorslen); e->ctx.cacertslen = anchorslen; e->ctx.verify_depth = TLS_DEFAULT_VERIFY_DEPTH; }
-	e->conn = malloc(sizeof(TLS_CONNECT));
-	if (tls_init(e->conn, &e->ctx) != 1) return -1;
+	if (tls_init(e->conn, &e->ctx) != 1) return -2;       /* -2: the library refused the configuration */
 	return 1;
 }
-static void ep_free(endpoint_t *e) { view_free(&e->view); tls_ctx_cleanup(&e->ctx); free(e->conn); e->conn = NULL; }
+static int ep_setup(endpoint_t *e, int protocol, int is_client,
+	const uint8_t *chain, size_t chainlen, const SM2_KEY *signkey, const SM2_KEY *enckey,
+	const uint8_t *anchors, size_t anchorslen) {
+	return ep_setup_on(e, NULL, protocol, is_client, chain, chainlen, signkey, enckey, anchors, anchorslen);
+}
+/* did the handshake leave the endpoint's configured trust anchors alone? */
+static int ep_anchors_intact(const endpoint_t *e) {
+	return e->conn->ca_certs_len == e->ctx.cacertslen && (e->ctx.cacertslen == 0 || !memcmp(e->conn->ca_certs, e->ctx.cacerts, e->ctx.cacertslen));
+}
+static void ep_free(endpoint_t *e) { view_free(&e->view); tls_ctx_cleanup(&e->ctx); free(e->conn); e->conn = NULL; free(e->forged_chain); e->forged_chain = NULL; }
 
 /* run client and server against each other through the proxy; returns after both handshakes
  * (and the optional post-handshake exchange) ended.  keep_open: leave sockets and proxy running
